@@ -56,7 +56,8 @@ CHECKS.update({
     "C11": {"engine": "kani+native", "design_ref": "DESIGN.md 5 (C11), 10.1",
             "technique": "Kani bounded Hoare-triple harnesses against the Roughtime layout; full-usize-domain harness for the i32::MAX rule; native bounded cross-check of the same triple on long lists",
             "text": _KB + "Layout, emitted == rough_tlv_len, MessageView round trip, stable tie order, new_from_sorted's rejection set, "
-                    "Cow variants, one level of nesting; the length rule over ALL usize lengths via a value type with symbolic length.",
+                    "Cow variants; the length rule over ALL usize lengths via a value type with symbolic length. Nested messages (values that "
+                    "are themselves messages) and long lists are checked by Engine C only (CBMC runs out of memory on the nesting harness).",
             "note": "BOUNDED: <= 2 pairs x 1-byte values quick (<= 3 x 2 thorough); recording sink instead of OwningIovec/Encoder (arena out of Kani's reach); defects that need many pairs (e.g. an unstable sort, which is stable below ~20 elements) are beyond Kani's bound and are reached only by Engine C, the native bounded cross-check (lists of up to 72 / 300 pairs; bounded, not proof)"},
     "C12": {"engine": "kani+native", "design_ref": "DESIGN.md 5 (C12), 10.1",
             "technique": "Kani bounded harnesses: acceptance <=> format rule on all byte strings up to the bound; accessor agreement / tiling by pointer identity; native bounded cross-check of the same triple on headers with many pairs",
